@@ -11,7 +11,68 @@ import shutil
 from common import VERIF, REPO, scratch, run, Undecided
 
 
-def run_probe(repo=REPO):
+def gen_histories(n_hist, seed):
+    """Deterministic edit histories for the C13 history clause: an opened document, then notifications with 1-3 incremental
+    changes each (valid client ranges on the client's CR-free text; inserted texts may carry CRLF / lone CR / multi-byte
+    characters / nothing), or a full-text replacement.  Expected final text = the LSP reference client's (tools/lsp_reference.py)."""
+    import random
+    import lsp_reference as ref
+    rnd = random.Random(seed)
+    alpha = ['a', 'b', '\n', '\u00df', '\u211d', '\U0001F4A3', ' ']
+    inserts = ['', 'x', '\n', '\r\n', 'q\r\nr', '\u00df', '\U0001F4A3', 'fn f() {}\n', '\r', 'ab\ncd']
+    out = []
+    for h in range(n_hist):
+        doc = ''.join(rnd.choice(alpha) for _ in range(rnd.randint(0, 8)))
+        text = doc
+        notifs = []
+        for _ in range(rnd.randint(1, 4)):
+            changes = []
+            for _ in range(rnd.randint(1, 3)):
+                ins = rnd.choice(inserts)
+                if rnd.random() < 0.15:
+                    changes.append((None, ins))
+                    text = ref.strip_cr(ins)
+                    continue
+                vp = ref.valid_positions(text)
+                a, b = sorted((rnd.randrange(len(vp)), rnd.randrange(len(vp))))
+                (l1, c1, o1), (l2, c2, o2) = vp[a], vp[b]
+                changes.append(((l1, c1, l2, c2), ins))
+                text = ref.strip_cr(ref.client_apply(text, o1, o2, ins))
+            notifs.append(changes)
+        out.append((doc, notifs, text))
+    return out
+
+
+def rs_str(s):
+    out = '"'
+    for c in s:
+        if c == '\n':
+            out += '\\n'
+        elif c == '\r':
+            out += '\\r'
+        elif c == '"':
+            out += '\\"'
+        elif c == '\\':
+            out += '\\\\'
+        elif 0x20 <= ord(c) < 0x7f:
+            out += c
+        else:
+            out += '\\u{%x}' % ord(c)
+    return out + '"'
+
+
+def history_tests(n_hist, seed):
+    lines = ['', '    // ---- generated: C13 edit histories against the LSP reference client (tools/session_probe.py gen_histories) ----']
+    for i, (doc, notifs, final) in enumerate(gen_histories(n_hist, seed)):
+        ns = []
+        for changes in notifs:
+            cs = ', '.join('ch(%s, %s)' % ('None' if r is None else 'Some((%d, %d, %d, %d))' % r, rs_str(t)) for (r, t) in changes)
+            ns.append('vec![%s]' % cs)
+        lines.append('    #[tokio::test]\n    async fn history_%d() { history(%s, vec![%s], %s); }' % (i, rs_str(doc), ', '.join(ns), rs_str(final)))
+    return '\n'.join(lines) + '\n'
+
+
+def run_probe(repo=REPO, n_hist=40, seed=1):
     """-> dict(status='passed'|'failed'|'undecided', scenarios={name: 'ok'|'FAILED'}, symptoms={name: text}, ...)"""
     d = os.path.join(scratch(), 'session_native')
     shutil.rmtree(d, ignore_errors=True)
@@ -19,7 +80,10 @@ def run_probe(repo=REPO):
     srv = os.path.join(d, 'crates/glas/src/server.rs')
     if not os.path.exists(srv):
         return {'status': 'undecided', 'why': 'crates/glas/src/server.rs not found'}
-    open(srv, 'a').write(open(os.path.join(VERIF, 'tools/session_probe/verif_session.rs')).read())
+    mod = open(os.path.join(VERIF, 'tools/session_probe/verif_session.rs')).read()
+    k = mod.rstrip().rfind('}')
+    mod = mod[:k] + history_tests(n_hist, seed) + '}\n'
+    open(srv, 'a').write(mod)
     cmd = ['cargo', 'test', '-p', 'glas', '--offline', '--lib', 'verif_session', '--', '--test-threads', '4']
     rc, out, err, wall = run(cmd, cwd=d, timeout=1500, env={'CARGO_TARGET_DIR': os.path.join(d, 'target'), 'RUST_BACKTRACE': '0'})
     text = out + '\n' + err
